@@ -441,6 +441,50 @@ def run(model, col, tier):
     setargs = [c for c in ast.walk(cpv) if isinstance(c, ast.Call) and last_attr(c) == "SetArguments"]
     col.check(bool(setargs) and lst_name is not None and unparse(setargs[0].args[0]) == lst_name, "R04.7", "nsl/passes/AddImplicitCasts.py::v_ConstructPrimitiveExpression installs the converted arguments", "node.SetArguments(arguments)", None, "nsl/passes/AddImplicitCasts.py", cpv)
     check_swizzle_flag(model, col, "R04.2")
+    # element access `a[i]`: the indexed value is evaluated before the index (source order: an index with a side effect on what
+    # the parent reads - `m[i][i++]` - must not run first)
+    vae = model.cls(LOWER, "LowerToIRVisitor").own_method("v_ArrayExpression")
+    nodep_a = vae.args.args[1].arg
+    wrong_order = None
+    norder = 0
+    for evs, status in paths(vae.body):
+        seq_ = []
+        for c in calls_on_path(evs):
+            if last_attr(c) in ("v_Visit", "v_Generic") and c.args and isinstance(c.args[0], ast.Call) and isinstance(c.args[0].func, ast.Attribute) and unparse(c.args[0].func.value) == nodep_a:
+                seq_.append(c.args[0].func.attr)
+        if "GetParent" in seq_ and "GetExpression" in seq_:
+            norder += 1
+            if seq_.index("GetParent") > seq_.index("GetExpression"):
+                wrong_order = seq_
+    col.floor("R04.3", "paths of v_ArrayExpression lowering parent and index", norder, 1)
+    col.check(wrong_order is None, "R04.3", f"{LOWER}::v_ArrayExpression evaluation order", "the indexed expression is lowered before the index expression",
+              f"children are lowered in the order {wrong_order}: an index expression with a side effect runs before the value it indexes is read", LOWER, vae)
+    # a cast produces a value of the cast's own type (for a vector: the vector type, not its component type - the choice between
+    # scalar and vector opcodes downstream reads it)
+    vce = model.cls(LOWER, "LowerToIRVisitor").own_method("v_CastExpression")
+    from ..sem import local_env as _le43, rtext as _rt43
+
+    env43 = _le43(vce, allow_impure=True)
+    mk43 = [c for c in ast.walk(vce) if isinstance(c, ast.Call) and last_attr(c) == "CastInstruction" and len(c.args) >= 2]
+    col.floor("R04.3", "cast instructions built by v_CastExpression", len(mk43), 1)
+    for c in mk43:
+        t43 = _rt43(c.args[1], env43)
+        col.check(t43 == f"{vce.args.args[2].arg}.AdaptType({vce.args.args[1].arg}.GetType())", "R04.3", f"{LOWER}::v_CastExpression result type", "CastInstruction(value, ctx.AdaptType(<cast>.GetType()))",
+                  f"the cast instruction is typed `{t43}`, not the cast expression's own type: a vector cast yields a value typed as a scalar, and operations on it select scalar opcodes", LOWER, c)
+    # operands of element / member / shuffle / constructor instructions are enumerated and rewired like all operands (= R02.1)
+    from ..report import Collector as _C43
+    from . import c02 as _c02_43
+
+    sub43 = _C43("C02")
+    _c02_43.check_operand_protocol(model, sub43, "R02.1")
+    n43 = 0
+    for ob in sub43.obligations:
+        if any(k in ob.construct for k in ("ArrayAccess", "MemberAccess", "Shuffle", "ConstructPrimitive", "_IndexedAccessBase", "VectorSet", "MatrixSet")):
+            ob.detail = "[R02.1] " + (ob.detail or "")
+            ob.rule = "R04.3"
+            col.obligations.append(ob)
+            n43 += 1
+    col.floor("R04.3", "operand obligations of aggregate instructions shared with C02", n43, 6)
     # ---------------- R04.9 component-type promotion of vector/matrix operands (= R09.2/R09.3) --------
     from . import c09
 
